@@ -41,7 +41,12 @@ func genC16(tier string, seed uint64, emit func(string)) {
 		if i%2 == 1 {
 			store = "example"
 		}
-		emit(fmt.Sprintf("lin %s %d %d %d %d %s", store, clients, ops, 1+r.Intn(3), r.U64()%100000000, kindSets[i%len(kindSets)]))
+		line := fmt.Sprintf("lin %s %d %d %d %d %s", store, clients, ops, 1+r.Intn(3), r.U64()%100000000, kindSets[i%len(kindSets)])
+		if i%3 == 2 {
+			// all clients but the first connect only when they issue their first command
+			line += " late"
+		}
+		emit(line)
 	}
 }
 
@@ -230,21 +235,34 @@ func runC16(toks []string) Result {
 	var wg, swg sync.WaitGroup
 	start := make(chan struct{})
 	hung := atomic.Bool{}
+	late := len(toks) > 7 && toks[7] == "late"
 	for c := 0; c < clients; c++ {
-		cl, sv := net.Pipe()
-		swg.Add(1)
-		go func() {
-			defer swg.Done()
-			defer func() { recover() }()
-			serve(sv)
-		}()
+		connect := func() net.Conn {
+			cl, sv := net.Pipe()
+			swg.Add(1)
+			go func() {
+				defer swg.Done()
+				defer func() { recover() }()
+				serve(sv)
+			}()
+			return cl
+		}
+		var pre net.Conn
+		if !late || c == 0 {
+			pre = connect()
+		}
 		wg.Add(1)
 		go func(c int, conn net.Conn) {
 			defer wg.Done()
-			defer conn.Close()
 			r := NewRng(seed*31 + uint64(c)*7919 + 1)
-			br := bufio.NewReader(conn)
 			<-start
+			if conn == nil {
+				// this client connects only now, while the clients before it already have commands in flight
+				time.Sleep(time.Duration(r.Intn(400)) * time.Microsecond)
+				conn = connect()
+			}
+			defer conn.Close()
+			br := bufio.NewReader(conn)
 			for i := 0; i < ops; i++ {
 				argv := genLinOp(r, kinds, keys, c, i)
 				req := reqS(argv...)
@@ -264,7 +282,7 @@ func runC16(toks []string) Result {
 				op.reply = reply
 				hist[c] = append(hist[c], op)
 			}
-		}(c, cl)
+		}(c, pre)
 	}
 	close(start)
 	wg.Wait()
